@@ -22,7 +22,8 @@ from ..common import rng_for, digest
 from ..impl import runner as R
 
 PARAMS = [(8, 32), (16, 64), (5, 12), (32, 128), (13, 50), (4, 4), (1, 10), (64, 256)]
-NAMES = ['a', 'a.bak', 'b.bin', 'b.bin.old', 'ünï', 'dir with space', '-dash', 'x.tmp', 'new\nline', 'z' * 40, '日本', b'\xff\xfe'.decode('utf-8', 'surrogateescape'), 'c', 'd', 'e0', 'e1']
+# incl. names that are not in Unicode normal form C (decomposed accents, singleton-decomposable characters) and a pair differing only by normalisation
+NAMES = ['cafe\u0301.txt', 'caf\u00e9.txt', '10\u212b.dat', 'a', 'a.bak', 'b.bin', 'b.bin.old', 'ünï', 'dir with space', '-dash', 'x.tmp', 'new\nline', 'z' * 40, '日本', b'\xff\xfe'.decode('utf-8', 'surrogateescape'), 'c', 'd', 'e0', 'e1']
 
 
 def gen_config(r):
